@@ -3,6 +3,7 @@ import Cactus.Lemmas.Complete
 import Cactus.Lemmas.Basic
 import Cactus.Lemmas.Orphan
 import Cactus.Props.C13   -- only for `runWith` (`run` with an explicit step budget)
+import Cactus.Lemmas.Termination.Loop   -- the measure `State.work`, termination, the `makeMut` loop
 /-!
 # C03 — an orphaned adopted group is destroyed in full by the drop that orphans it
 
@@ -19,8 +20,22 @@ every run (corpus `d5_joint_orphan.ops`).  What does hold and is proved here:
   (`C03_group_rule_instance`: ring with tail, an outsider, a Weak);
 * whole histories, no hypothesis: `C03_no_live_object_without_a_handle`,
   `C03_handleless_object_is_destroyed` (collection is synchronous: at operation boundaries every
-  live object has a handle).
-Not proved (false): the group rule on the zero-count path, see D5 above.
+  live object has a handle);
+* the drop returns (last section): `C03_work_decreases` (every machine step except the execution of
+  a `makeMut` action of a destructor script decreases the measure `State.work`),
+  `C03_teardown_terminates` (at most `s.work` steps), `C03_step_budget_suffices` (`drain` with
+  `s.work ≤ fuel` never reports `.fuel`), `C03_operation_within_budget`,
+  `C03_history_never_out_of_budget` (static condition for `run`), all for class (b): no destructor
+  script contains `makeMut`; class (a) (no scripts) is an instance
+  (`C03_teardown_terminates_noScripts`).  Examples with computed `work` and actual step counts:
+  `C03_ring_with_tail_budget`, `C03_scripted_budget`.
+  FINDING (of the model; not replayed on the code — there it is an unbounded recursion of user
+  `drop`, i.e. a stack overflow, not a defect of the crate): for class (c), all scripts,
+  termination is false — `C03_teardown_can_diverge`: a destructor that `make_mut`s a shared handle
+  to a value carrying the same destructor re-creates what it destroys; the operation exhausts
+  every step budget.
+Not proved (false): the group rule on the zero-count path, see D5 above; termination of the
+teardown for destructor scripts containing `makeMut`.
 `Cactus.Props.C13` is imported only for `runWith` (`run` with an explicit step budget).
 -/
 namespace Cactus
@@ -303,5 +318,180 @@ example : let s := run (groupBuild ++ [(.act (.drop 0), [])])
     ∧ (s.heap[1]?).map (fun ob => (ob.strong, ob.weak, ob.value.isSome, ob.freed))
         = some (.uninit, 1, false, false) := by
   decide +kernel
+
+
+/-! ## The drop returns: termination of the teardown
+
+"All objects of the set are destroyed before the drop returns" presupposes that the drop returns.
+In the model an operation is `endOp (drain fuel (applyOp …))` and `drain` gives up with
+`err := some .fuel` when the budget is exhausted; every other theorem assumes `err = none`.  This
+section shows that the `fuel` error is an artefact of a too small budget only — for every state in
+which no destructor script contains `makeMut` (class (b), `State.NoMM = ScriptsQ Act.notMakeMut`:
+scripts of running destructors, of values about to be destroyed, of values in the heap and of
+unwrapped values) — and that it is not for the remaining class.
+
+The measure (`Cactus/Lemmas/Termination/Measure.lean`) is a weighted sum,
+`s.work = stackW s.stack + heapW s.heap + valsW s.vals`:
+a value costs `v.cost = 3 + 7·|script| + 3·|held| + 2·|weaks|`; frames weigh `rcDrop` 2,
+`weakDrop`/`panic`/`finishSingle`/`phase3` 1, `dropFields h w` `1 + 3|h| + 2|w|`, `script _ _ acts`
+`1 + 7|acts|`, `dropVal v` `v.cost + 1`; a value in the heap weighs `v.cost + 3`, an unwrapped value
+`v.cost + 1`. -/
+
+/-- the measure, spelled out -/
+theorem C03_work_def (s : State) :
+    s.work = ((s.stack.map Frame.work).sum
+      + ((s.heap.map (·.value)).map (fun ov => match ov with | some v => v.cost + 3 | none => 0)).sum)
+      + (s.vals.map (fun v => v.cost + 1)).sum := by
+  have : optW = (fun ov => match ov with | some v => v.cost + 3 | none => 0) := by
+    funext ov; cases ov <;> rfl
+  simp only [State.work, stackW, heapW, hv, valsW, this]
+
+/-- **every machine step decreases the measure** (or raises an error), all nine frame kinds and
+all actions inside destructor scripts, with one exception: the step that executes a `makeMut`
+action of a destructor script.  No hypothesis on the state. -/
+theorem C03_work_decreases (s : State) (he : s.err = none) (hst : s.stack ≠ [])
+    (hmm : ∀ h w r as rest, s.stack ≠ .script h w (.makeMut r :: as) :: rest) :
+    (step s).err ≠ none ∨ (step s).work < s.work :=
+  step_work_lt s he hst hmm
+
+/-- **C03, the drop returns**: from any state whose destructor scripts contain no `makeMut`, the
+control stack is empty (the operation returns) or an error is raised after at most `s.work` machine
+steps -/
+theorem C03_teardown_terminates (s : State) (hq : s.ScriptsQ Act.notMakeMut) :
+    ∃ k, k ≤ s.work ∧ ((runSteps k s).stack = [] ∨ (runSteps k s).err ≠ none) :=
+  teardown_terminates s hq
+
+/-- class (a): no destructor scripts at all (e.g. all values `quiet`), nothing else assumed -/
+theorem C03_teardown_terminates_noScripts (s : State) (hq : s.ScriptsQ (fun _ => False)) :
+    ∃ k, k ≤ s.work ∧ ((runSteps k s).stack = [] ∨ (runSteps k s).err ≠ none) :=
+  teardown_terminates_noScripts s hq
+
+/-- **the step budget is not hiding a loop**: `drain` with a budget of at least `s.work` never
+ends in the `fuel` error -/
+theorem C03_step_budget_suffices (f : Nat) (s : State) (hq : s.ScriptsQ Act.notMakeMut)
+    (he : s.err = none) (hf : s.work ≤ f) :
+    (drain f s).err ≠ some .fuel :=
+  drain_no_fuel_error f s hq he hf
+
+/-- … it ends with an empty stack and no more work than it started with, or with another error -/
+theorem C03_drain_finishes (f : Nat) (s : State) (hq : s.ScriptsQ Act.notMakeMut)
+    (he : s.err = none) (hf : s.work ≤ f) :
+    ((drain f s).err = none ∧ (drain f s).stack = [] ∧ (drain f s).work ≤ s.work)
+    ∨ ((drain f s).err ≠ none ∧ (drain f s).err ≠ some .fuel) :=
+  drain_finishes f s hq he hf
+
+/-- no machine step raises `fuel` (the trace's own budget is sufficient, `cycleRefs_fuel`): the
+error comes from `drain` alone -/
+theorem C03_step_never_out_of_fuel (s : State) (h : (step s).err = some .fuel) : s.err = some .fuel :=
+  step_err_fuel s h
+
+/-- one operation, from the state before it: a budget of `2·work + 6 + 7·|installed script|` is
+enough (`2·`: a top-level `makeMut` may clone a value that is already counted) -/
+theorem C03_operation_within_budget (fuel : Nat) (s : State) (op : Op) (hint : List Nat)
+    (he : s.err ≠ some .fuel) (hq : s.ScriptsQ Act.notMakeMut) (hop : op.scriptNoMM)
+    (hw : 2 * s.work + 6 + 7 * op.scriptLen ≤ fuel) :
+    (execOp fuel s op hint).err ≠ some .fuel :=
+  execOp_no_fuel_of_work fuel s op hint he hq hop hw
+
+/-- the same in terms of sizes, for a quiescent state: allocations, unwrapped values, handles
+stored in values, total script length -/
+theorem C03_operation_within_budget_sizes (fuel : Nat) (s : State) (op : Op) (hint : List Nat)
+    (he : s.err ≠ some .fuel) (hst : s.stack = []) (hq : s.ScriptsQ Act.notMakeMut) (hop : op.scriptNoMM)
+    (hw : 12 * (s.heap.length + s.vals.length) + 6 * s.storedHandles + 14 * s.scriptTotal + 6
+      + 7 * op.scriptLen ≤ fuel) :
+    (execOp fuel s op hint).err ≠ some .fuel :=
+  execOp_no_fuel_of_size fuel s op hint he hst hq hop hw
+
+/-- **whole histories**: a history in which `makeMut` occurs neither as an action nor in a
+destructor script, with `6·#operations + 7·Σ script lengths ≤ defaultFuel = 10⁶`, never reports
+`fuel` — whatever else it does -/
+theorem C03_history_never_out_of_budget (ops : List (Op × List Nat))
+    (hops : ∀ oh ∈ ops, oh.1.S Act.notMakeMut)
+    (hsize : 6 * ops.length + 7 * (ops.map (·.1.scriptLen)).sum ≤ defaultFuel) :
+    (run ops).err ≠ some .fuel :=
+  run_no_fuel_error ops hops hsize
+
+/-! ### The finding: with `makeMut` in a destructor the teardown can run forever
+
+`make_mut` on a shared handle clones the value *with its destructor*; a destructor that does this
+to a value carrying the same destructor and drops the copy re-creates what it destroys (in Rust:
+an unbounded recursion of `drop`, i.e. a stack overflow — the crate cannot prevent it, `T: Clone`
+and `T: Drop` are user code).  Proof: `Cactus.TerminationLoop.loop_six_steps` (loop invariant: six
+machine steps lead from round `n` to round `n + 1`; one more husk in the heap, three more frames
+on the stack, `work = 53 + 3·n`). -/
+
+/-- the history: a prototype carrying the script, shared, `makeMut` of one handle (first copy);
+the fifth operation, `drop 1`, drops the copy -/
+theorem C03_diverging_history : TerminationLoop.loopPre =
+    [(.act .new, []), (.setScript 0 [.clone 0, .makeMut 1, .drop 1], []), (.act (.clone 0), []),
+     (.act (.makeMut 1), [])] := rfl
+
+/-- **FINDING**: for every step budget `f` the fifth operation ends with `err = some .fuel` -/
+theorem C03_teardown_can_diverge (f : Nat) :
+    (execOp f (run TerminationLoop.loopPre) (.act (.drop 1)) []).err = some .fuel :=
+  TerminationLoop.makeMut_loop_never_returns f
+
+/-- as a statement about machine steps: no error, never an empty stack, and the measure grows
+without bound (by 3 every six steps) -/
+theorem C03_teardown_can_diverge_steps (m : Nat) :
+    let s := applyOp ((run TerminationLoop.loopPre).begin []) (.act (.drop 1))
+    (runSteps m s).err = none ∧ (runSteps m s).stack ≠ [] ∧ (runSteps (6 * m + 1) s).work = 53 + 3 * m := by
+  refine ⟨(TerminationLoop.makeMut_loop_runs_forever m).1, (TerminationLoop.makeMut_loop_runs_forever m).2, ?_⟩
+  have e : 6 * m + 1 = 1 + 6 * m := by omega
+  rw [e, runSteps_add]
+  show (runSteps (6 * m) (step TerminationLoop.loopStart)).work = _
+  rw [TerminationLoop.loopStart_step, TerminationLoop.loop_rounds, TerminationLoop.loop_work]
+
+/-! ### Examples: computed `work`, actual number of steps -/
+
+/-- the ring with tail of the positive instance above (`groupStart`: the collecting `drop 0` has
+pushed its frame): `work = 53`, the operation returns after exactly 22 machine steps,
+`22 ≤ 53 ≤ defaultFuel` -/
+theorem C03_ring_with_tail_budget :
+    groupStart.work = 53
+    ∧ (runSteps 22 groupStart).stack = [] ∧ (runSteps 22 groupStart).err = none
+    ∧ (runSteps 21 groupStart).stack ≠ []
+    ∧ 22 ≤ groupStart.work ∧ groupStart.work ≤ defaultFuel := by
+  decide +kernel
+
+/-- the theorem applies to it (its values have no scripts) -/
+example : ∃ k, k ≤ 53 ∧ ((runSteps k groupStart).stack = [] ∨ (runSteps k groupStart).err ≠ none) := by
+  have hq : groupStart.ScriptsQ Act.notMakeMut :=
+    applyOp_noMM _ _ trivial (begin_scriptsQ _ _ (run_noMM groupBuild (by decide)))
+  have h := C03_teardown_terminates groupStart hq
+  rwa [C03_ring_with_tail_budget.1] at h
+
+/-- a 2-ring whose members have destructor scripts that allocate, clone, store, downgrade and drop
+handles while the group is being collected -/
+def scriptedBuild : List (Op × List Nat) :=
+  [(.act .new, []), (.act .new, []), (.act .new, []),
+   (.act (.clone 1), []), (.act (.link 3 0), []),     -- x adopts and holds y
+   (.act (.clone 0), []), (.act (.link 3 1), []),     -- y adopts and holds x
+   (.setScript 0 [.new, .clone 2, .store 3 2, .drop 2], []),
+   (.setScript 1 [.new, .downgradeField 0, .dropWeak 0, .drop 2], []),
+   (.act (.drop 1), [])]
+
+def scriptedStart : State := applyOp ((run scriptedBuild).begin []) (.act (.drop 0))
+
+/-- `work = 82`; both destructors run (`destroyed 0`, `destroyed 1`), the operation returns after
+exactly 31 machine steps without error, `31 ≤ 82 ≤ defaultFuel` -/
+theorem C03_scripted_budget :
+    scriptedStart.work = 82
+    ∧ (runSteps 31 scriptedStart).stack = [] ∧ (runSteps 31 scriptedStart).err = none
+    ∧ (runSteps 30 scriptedStart).stack ≠ []
+    ∧ Ev.destroyed 0 ∈ (runSteps 31 scriptedStart).log ∧ Ev.destroyed 1 ∈ (runSteps 31 scriptedStart).log
+    ∧ 31 ≤ scriptedStart.work ∧ scriptedStart.work ≤ defaultFuel := by
+  decide +kernel
+
+/-- the hypotheses of the theorems hold for it, so they apply: the budget of `run` suffices -/
+example : (drain defaultFuel scriptedStart).err ≠ some .fuel := by
+  have hq : scriptedStart.ScriptsQ Act.notMakeMut :=
+    applyOp_noMM _ _ trivial (begin_scriptsQ _ _ (run_noMM scriptedBuild (by decide)))
+  exact C03_step_budget_suffices defaultFuel scriptedStart hq (by decide +kernel)
+    (by rw [C03_scripted_budget.1]; decide)
+
+/-- and the static condition for the whole history: 11 operations, 8 script actions -/
+example : (run (scriptedBuild ++ [(.act (.drop 0), [])])).err ≠ some .fuel :=
+  C03_history_never_out_of_budget _ (by decide) (by decide)
 
 end Cactus
